@@ -42,6 +42,10 @@ namespace verif::e2 {
     inline std::atomic<bool> g_overflow{false};
     inline thread_local int tl_os = -1;
     inline thread_local bool tl_holding = false;
+    // open PRE sites of this thread (PRE/POST pairs may nest: the lock is held from the outermost
+    // PRE to its matching POST; a POST whose site is not the innermost open one is a note)
+    inline thread_local char const* tl_open[8];
+    inline thread_local int tl_depth = 0;
     inline thread_local std::uint64_t tl_rng = 0;
     inline bool g_place = false;    // also keep the placement sites place.* (C10)
 
@@ -117,8 +121,12 @@ namespace verif::e2 {
         // a POST whose PRE took the log lock must release it even if logging was switched off in between
         if (phase == 2 && tl_holding && !g_enabled.load(std::memory_order_relaxed))
         {
-            tl_holding = false;
-            unlock();
+            if (tl_depth > 0 && tl_depth <= 8 && std::strcmp(tl_open[tl_depth - 1], site) == 0) --tl_depth;
+            if (tl_depth == 0)
+            {
+                tl_holding = false;
+                unlock();
+            }
             return;
         }
         if (!g_enabled.load(std::memory_order_relaxed) || !wanted(site)) return;
@@ -130,17 +138,27 @@ namespace verif::e2 {
         }
         if (phase == 1)
         {
-            perturb();
-            lock();
-            tl_holding = true;
+            if (tl_depth == 0)
+            {
+                perturb();
+                lock();
+                tl_holding = true;
+            }
+            if (tl_depth < 8) tl_open[tl_depth] = site;
+            ++tl_depth;
             return;
         }
+        bool closes = tl_depth > 0 && tl_depth <= 8 && std::strcmp(tl_open[tl_depth - 1], site) == 0;
         if (!tl_holding) lock();
         if (g_drop != nullptr && g_drop(site, obj, a, b)) {}
         else if (g_log->size() < g_max_records) g_log->push_back(rec{os, site, obj, a, b});
         else g_overflow.store(true);
-        tl_holding = false;
-        unlock();
+        if (closes) --tl_depth;
+        if (tl_depth == 0)
+        {
+            tl_holding = false;
+            unlock();
+        }
     }
 
     inline void note(char const* site, void const* obj, std::uint64_t a = 0, std::uint64_t b = 0)
